@@ -289,90 +289,406 @@ def run_e2e(case, classes):
 
 
 # ----------------------------------------------------------------------------------------------------------------------
+# end to end with real SSI runs: noise-free free-decay records of one global chain system, different amplitudes
+# ----------------------------------------------------------------------------------------------------------------------
+def chain_modes(k, m):
+    n = len(m)
+    K = np.zeros((n, n))
+    for i in range(n):
+        K[i, i] = k[i] + k[i + 1]
+        if i + 1 < n:
+            K[i, i + 1] = K[i + 1, i] = -k[i + 1]
+    Mi = np.diag(1 / np.sqrt(np.array(m)))
+    w2, V = np.linalg.eigh(Mi @ K @ Mi)
+    return np.sqrt(w2) / (2 * np.pi), Mi @ V
+
+
+def gen_ssi_case(rng, alg):
+    for _ in range(200):
+        nset = rng.randint(2, 4)
+        nref = rng.randint(1, 3)
+        sensors, refs, n = gen_layout(rng, nset=nset, nref=nref, max_rov=3)
+        if not 3 <= n <= 7 or min(len(x) for x in sensors) < 2:
+            continue
+        k = [rng.uniform(0.6, 1.6) * 4000.0 for _ in range(n + 1)]
+        m = [rng.uniform(0.7, 1.4) for _ in range(n)]
+        fn, Phi = chain_modes(k, m)
+        if np.min(np.diff(fn) / fn[:-1]) < 0.12:
+            continue
+        ref_ids = [sensors[0][p] for p in refs[0]]
+        if np.min(np.sum(Phi[ref_ids, :] ** 2, axis=0) / np.sum(Phi ** 2, axis=0)) < 0.02:
+            continue
+        sel = sorted(rng.sample(range(n), rng.randint(1, n)))
+        return dict(kind="ssi", alg=alg, k=k, m=m, xi=[rng.uniform(0.008, 0.03) for _ in range(n)], sensors=sensors, refs=refs,
+                    amps=[gen_factor(rng) for _ in range(nset)], sel=sel, N=rng.choice([500, 640, 800]), br=-(-2 * n // nref) + rng.randint(1, 5),  # (br+1)*nref >= 2n is what SSI_fast needs
+                    modal=[[[rng.uniform(0.5, 1.5) * rng.choice([-1, 1]), rng.uniform(0, 6.28)] for _ in range(n)] for _ in range(nset)])
+    raise RuntimeError("no admissible chain system drawn")
+
+
+def run_ssi(case):
+    from pyoma2.algorithms import SSIcov, SSIdat
+    from pyoma2.setup import MultiSetup_PoSER, SingleSetup
+
+    fn, Phi = chain_modes(case["k"], case["m"])
+    n = len(fn)
+    fs = 5.0 * float(fn.max())
+    t = np.arange(case["N"]) / fs
+    setups, per = [], []
+    for i, s in enumerate(case["sensors"]):
+        y = np.zeros((case["N"], n))
+        for r in range(n):
+            w = 2 * np.pi * fn[r]
+            a, ph = case["modal"][i][r]
+            y += np.outer(a * np.exp(-case["xi"][r] * w * t) * np.cos(w * np.sqrt(1 - case["xi"][r] ** 2) * t + ph), Phi[:, r])
+        ss = SingleSetup(case["amps"][i] * y[:, s], fs=fs)
+        kw = dict(br=case["br"], ordmax=2 * n, ref_ind=list(case["refs"][i]))
+        alg = SSIcov(name="ssi_%d" % i, method="cov_mm", **kw) if case["alg"] == "SSIcov" else SSIdat(name="ssi_%d" % i, **kw)
+        ss.add_algorithms(alg)
+        ss.run_all()
+        ss.mpe("ssi_%d" % i, sel_freq=[float(fn[r]) for r in case["sel"]], order=2 * n)
+        setups.append(ss)
+        per.append((np.asarray(alg.result.Fn, float), np.asarray(alg.result.Xi, float), np.asarray(alg.result.Phi)))
+    return fn, Phi, per, setups
+
+
+def merge_ssi(case, setups):
+    from pyoma2.setup import MultiSetup_PoSER
+
+    msp = MultiSetup_PoSER(ref_ind=[list(r) for r in case["refs"]], single_setups=setups, names=["ssi"])
+    return msp.merge_results()["ssi"]
+
+
+# ----------------------------------------------------------------------------------------------------------------------
+# judging one merge case against the property text; shrinking a failing one
+# ----------------------------------------------------------------------------------------------------------------------
+GLOBAL_TXT = ("gen.merge_mode_shapes: merged shape is not the global shape in the first setup's scale (rows: references in the first "
+              "setup's order, then roving sensors setup by setup)")
+
+
+def judge_merge(case):
+    """Run gen.merge_mode_shapes on the case and evaluate the property text on what it returns.
+    Returns (got | None, (key, what) | None, iso, illc): iso / illc = modes outside the hypothesis (g^T g = 0) / not judged."""
+    from pyoma2.functions import gen
+
+    G, MS = arrays(case)
+    nm = G.shape[1]
+    ref_ids = [case["sensors"][0][p] for p in case["refs"][0]]
+    iso = [k for k in range(nm) if isotropic(case["G"], ref_ids, k)]
+    illc = [k for k in range(nm) if k not in iso and ill_conditioned(case["G"], ref_ids, k)]
+    try:
+        got = np.asarray(gen.merge_mode_shapes([M.copy() for M in MS], [list(r) for r in case["refs"]]))
+    except Exception as e:  # the hypothesis of the property holds: no exception is acceptable
+        return None, ("C02:merge_mode_shapes:raises", "gen.merge_mode_shapes raises %s on setups that are re-scaled restrictions of one "
+                      "global shape" % type(e).__name__), iso, illc
+    want, _ = expected_merged(case)
+    if got.shape != want.shape:
+        return got, ("C02:merge_mode_shapes:shape", "gen.merge_mode_shapes: result has shape %s, property says (%d rows = references + all "
+                     "roving, %d modes)" % (got.shape, want.shape[0], want.shape[1])), iso, illc
+    keep = [k for k in range(nm) if k not in iso and k not in illc]
+    if keep and not close(got[:, keep], want[:, keep]):
+        g, w = got[:, keep], want[:, keep]
+        if not np.all(np.isfinite(g)):
+            detail = "merged contains NaN/inf"
+        else:
+            with np.errstate(all="ignore"):
+                r = g / w
+            r = r[np.isfinite(r)]
+            detail = "merged/global takes the values %s, largest deviation %.3g of the scale" % (
+                [round(float(x), 6) for x in np.unique(np.round(r.real, 6))[:8]], float(np.max(np.abs(g - w)) / max(1.0, np.max(np.abs(w)))))
+        return got, ("C02:merge_mode_shapes:global", GLOBAL_TXT + "; " + detail), iso, illc
+    return got, None, iso, illc
+
+
+def sub_case(case, setups, modes):
+    return dict(case, G=[[row[k] for k in modes] for row in case["G"]], sensors=[list(case["sensors"][i]) for i in setups],
+                refs=[list(case["refs"][i]) for i in setups], factors=[[case["factors"][i][k] for k in modes] for i in setups])
+
+
+def drop_channel(case, i, p):
+    c = dict(case, sensors=[list(s) for s in case["sensors"]], refs=[list(r) for r in case["refs"]])
+    c["sensors"][i].pop(p)
+    c["refs"][i] = [q - 1 if q > p else q for q in c["refs"][i]]
+    return c
+
+
+def compact(case):
+    ids = []
+    for s in case["sensors"]:
+        for x in s:
+            if x not in ids:
+                ids.append(x)
+    return dict(case, G=[case["G"][x] for x in ids], sensors=[[ids.index(x) for x in s] for s in case["sensors"]])
+
+
+def shrink_merge(case, key):
+    """Smaller case failing the same way: one mode, first setup + one other, roving channels removed while it still fails."""
+    def fails(c):
+        try:
+            return (judge_merge(c)[1] or (None,))[0] == key
+        except Exception:
+            return False
+    nset, nm = len(case["sensors"]), len(case["G"][0])
+    cands = [sub_case(case, [0, i], [k]) for k in range(nm) for i in range(1, nset)]
+    cands += [sub_case(case, [0, i], list(range(nm))) for i in range(1, nset)] + [sub_case(case, list(range(nset)), [k]) for k in range(nm)]
+    best = next((c for c in cands if fails(c)), case)
+    changed = True
+    while changed:
+        changed = False
+        for i in range(len(best["sensors"])):
+            for p in range(len(best["sensors"][i]) - 1, -1, -1):
+                if p in best["refs"][i]:
+                    continue
+                c = drop_channel(best, i, p)
+                if fails(c):
+                    best, changed = c, True
+    best = compact(best)
+    return best if fails(best) else case
+
+
 def load_corpus():
     out = []
     for path in sorted(glob.glob(os.path.join(VERIF, "corpus", "C02", "*.json"))):
         c = json.load(open(path))
+        c = c.get("case", c)  # a replay file dropped into the corpus works as well
         c["corpus"] = os.path.basename(path)
         out.append(c)
     return out
 
 
+# ----------------------------------------------------------------------------------------------------------------------
 def run(ctx):
     from pyoma2.functions import gen
+    import pandas as pd
 
     rng = ctx.rng
     ctx.extra["rule"] = (
         "layouts: 2-5 setups, 1-4 reference sensors at arbitrary positions and listing orders, 0-5 roving sensors per setup, "
         "shuffled global sensor ids, 1-8 modes, real / Gaussian-rational dyadic entries, factors +-2^k(1+j/8) in [0.05,20]; "
         "a case is non-trivial when a setup other than the first has a roving sensor whose factor differs from the first "
-        "setup's for some mode; distinct by hash of the whole case")
+        "setup's for some mode (merge), when there is a roving sensor (names), always for end-to-end runs; distinct by hash of the whole case")
     ctx.assumptions += [
         "C02 theorems assume g^T g <> 0 (un-conjugated) on the reference part of every mode: forced by gen.MSF, which does not "
         "conjugate (pinned by test_MSF); inputs with g^T g = 0 are reported as observations, not judged",
-        "Fn_cov / Xi_cov are compared through their squares (model cov2 = var/mean^2); numpy.sqrt is trusted",
+        "Fn_cov / Xi_cov are compared with the model through their squares (model cov2 = population variance / mean^2); numpy.sqrt is trusted",
+        "end-to-end SSI cases: numpy/scipy eigen-solvers and the SSI identification itself are not part of C02; a case is judged only when "
+        "the identified per-setup shapes are re-scaled restrictions of the global shape to 1e-7 (the property's hypothesis)",
     ]
     exprs, meta = [], []
+    classes = stub_classes()
+    ssi_model = [0]
 
     # ------------------------------------------------------------------------------------------------ merge_mode_shapes
     def do_merge(case):
-        G, MS = arrays(case)
-        nm = G.shape[1]
-        ref_ids = [case["sensors"][0][p] for p in case["refs"][0]]
-        iso = [k for k in range(nm) if isotropic(case["G"], ref_ids, k)]
-        illc = [k for k in range(nm) if k not in iso and ill_conditioned(case["G"], ref_ids, k)]
+        got, bad, iso, illc = judge_merge(case)
         nontriv = any(len(s) > len(r) and any(ci != c0 for ci, c0 in zip(c, case["factors"][0]))
                       for s, r, c in zip(case["sensors"][1:], case["refs"][1:], case["factors"][1:]))
         ctx.count(case, nontrivial=nontriv and not iso)
-        ctx.hist("setups", len(MS))
-        ctx.hist("nref", len(ref_ids))
-        ctx.hist("modes", nm)
+        ctx.hist("setups", len(case["sensors"]))
+        ctx.hist("nref", len(case["refs"][0]))
+        ctx.hist("modes", len(case["G"][0]))
         ctx.hist("dtype", case["dtype"])
         ctx.hist("roving_total", sum(len(s) - len(r) for s, r in zip(case["sensors"], case["refs"])))
         ctx.sample(case)
-        try:
-            got = gen.merge_mode_shapes([M.copy() for M in MS], [list(r) for r in case["refs"]])
-        except Exception as e:  # the hypothesis of the property holds: no exception is acceptable
-            ctx.hist("error_kinds", type(e).__name__)
-            ctx.fail("oracle", "gen.merge_mode_shapes raises %s on setups that are re-scaled restrictions of one global shape" % type(e).__name__,
-                     case, key="C02:merge_mode_shapes:raises")
-            return
-        want, order = expected_merged(case)
-        got = np.asarray(got)
+        if bad:
+            if bad[0].endswith(":raises"):
+                ctx.hist("error_kinds", bad[1].split(" raises ")[1].split(" ")[0])
+            small = shrink_merge(case, bad[0])
+            what = (judge_merge(small)[1] or bad)[1] if small is not case else bad[1]
+            ctx.fail("oracle", what, small, key=bad[0])
         if iso or illc:
-            keep = [k for k in range(nm) if k not in iso and k not in illc]
             ctx.not_judged += 1
-            if iso:
-                fin = bool(np.all(np.isfinite(got[:, iso]))) if got.ndim == 2 and got.shape[1] == nm else None
-                ctx.note("observation (not a violation): reference part with g^T g = 0 (isotropic / zero): merged column is %s"
-                         % ("finite" if fin else "NaN (un-conjugated MSF divides by g^T g)"))
+            if iso and got is not None and got.ndim == 2 and got.shape[1] == len(case["G"][0]):
+                fin = bool(np.all(np.isfinite(got[:, iso])))
+                ctx.note("observation (not a violation): reference part with g^T g = 0 (isotropic or zero), outside the hypothesis of "
+                         "C02_merge_mode_shapes_spec: merged column is %s" % ("finite" if fin else "NaN (the un-conjugated MSF divides by g^T g)"))
                 ctx.hist("isotropic", "finite" if fin else "nan")
-            if got.ndim == 2 and got.shape == want.shape and keep and not close(got[:, keep], want[:, keep]):
-                ctx.fail("oracle", "gen.merge_mode_shapes: merged shape is not the global shape in the first setup's scale (rows: references in the "
-                         "first setup's order, then roving sensors setup by setup)", case, key="C02:merge_mode_shapes:global")
             return
-        if got.shape != want.shape:
-            ctx.fail("oracle", "gen.merge_mode_shapes: result has shape %s, property says (%d rows = references + all roving, %d modes)"
-                     % (got.shape, want.shape[0], want.shape[1]), case, key="C02:merge_mode_shapes:shape")
-        elif not close(got, want):
-            ratio = None
-            with np.errstate(all="ignore"):
-                r = got / want
-                r = r[np.isfinite(r)]
-                if r.size:
-                    ratio = [round(float(x), 6) for x in np.unique(np.round(r.real, 6))[:8]]
-            ctx.fail("oracle", "gen.merge_mode_shapes: merged shape is not the global shape in the first setup's scale (rows: references in the "
-                     "first setup's order, then roving sensors setup by setup); merged/global takes the values %s" % ratio,
-                     case, key="C02:merge_mode_shapes:global")
+        if got is None:
+            return
+        _, MS = arrays(case)
         exprs.append(merge_expr(MS, case["refs"]))
         meta.append(("merge", case, got))
 
-    # corpus first (failing inputs of repaired defects)
+    # ------------------------------------------------------------------------------------------------ flatten_sns_names
+    def do_flatten(case):
+        names, refs, sensors = case["names"], case["refs"], case["sensors"]
+        ctx.count(case, nontrivial=sum(len(s) for s in sensors) > len(sensors) * len(refs[0]))
+        order = expected_order(sensors, refs)
+        byid = {sid: nm_ for s, row in zip(sensors, names) for sid, nm_ in zip(s, row)}
+        want = ["REF%d" % (j + 1) for j in range(len(refs[0]))] + [byid[sid] for sid in order[len(refs[0]):]]
+        try:
+            got = gen.flatten_sns_names([list(r) for r in names], ref_ind=[list(r) for r in refs])
+        except Exception as e:
+            ctx.fail("oracle", "gen.flatten_sns_names raises %s on a list of lists of names with ref_ind" % type(e).__name__, case,
+                     key="C02:flatten_sns_names:raises")
+            return
+        if list(got) != want:
+            ctx.fail("oracle", "gen.flatten_sns_names: names are not in the order of the merged rows (REF1..REFk, then each setup's roving "
+                     "sensors in setup order)", dict(case, got=list(got), want=want), key="C02:flatten_sns_names:order")
+        # the table form of the same input (rows padded with NaN)
+        width = max(len(r) for r in names)
+        df = pd.DataFrame([r + [np.nan] * (width - len(r)) for r in names])
+        try:
+            got_df = gen.flatten_sns_names(df, ref_ind=[list(r) for r in refs])
+            if list(got_df) != want:
+                ctx.fail("oracle", "gen.flatten_sns_names (table form): names are not in the order of the merged rows",
+                         dict(case, got=list(got_df), want=want), key="C02:flatten_sns_names:order-table")
+        except Exception as e:
+            ctx.fail("oracle", "gen.flatten_sns_names raises %s on a table of names with ref_ind" % type(e).__name__, case,
+                     key="C02:flatten_sns_names:raises-table")
+        exprs.append(flatten_expr(names, refs))
+        meta.append(("flatten", case, list(got)))
+
+    def flatten_case(sensors, refs, tag):
+        return dict(kind="flatten", names=[["%s%d" % (tag, sid) for sid in s] for s in sensors], refs=refs, sensors=sensors)
+
+    # ------------------------------------------------------------------------------------------------ merge_results, stub algorithms
+    def do_e2e(case):
+        ctx.hist("e2e_algs", len(case["algs"]))
+        ctx.count(case, nontrivial=True)
+        try:
+            res = run_e2e(case, classes)
+        except Exception as e:
+            ctx.fail("oracle", "MultiSetup_PoSER(...).merge_results() raises %s on setups that are re-scaled restrictions of one global shape"
+                     % type(e).__name__, case, key="C02:merge_results:raises")
+            return
+        if sorted(res.keys()) != sorted(case["names"]):
+            ctx.fail("oracle", "merge_results: result keys %s are not the given names %s" % (sorted(res.keys()), case["names"]), case,
+                     key="C02:merge_results:names")
+            return
+        for a, sub in enumerate(case["algs"]):
+            r = res[case["names"][a]]
+            tag = dict(case, alg=a)
+            want_phi, _ = expected_merged(sub)
+            if np.asarray(r.Phi).shape != want_phi.shape or not close(r.Phi, want_phi):
+                ctx.fail("oracle", "merge_results()[name].Phi is not the global shape of that algorithm in the first setup's scale", tag,
+                         key="C02:merge_results:Phi")
+            for what, rows, mean_got, disp_got in (("Fn", sub["Fn"], r.Fn, r.Fn_cov), ("Xi", sub["Xi"], r.Xi, r.Xi_cov)):
+                mean_want, disp_want = pop_stats(rows)
+                if not close(mean_got, mean_want):
+                    ctx.fail("oracle", "merge_results()[name].%s is not the arithmetic mean over the setups" % what, tag,
+                             key="C02:merge_results:%s" % what)
+                if not close(disp_got, disp_want, floor=0.0):
+                    ctx.fail("oracle", "merge_results()[name].%s_cov is not the population standard deviation over the setups divided by the mean"
+                             % what, tag, key="C02:merge_results:%s_cov" % what)
+                exprs.append(stats_expr(rows))
+                meta.append(("stats", dict(tag, what=what), (np.asarray(mean_got, float), np.asarray(disp_got, float))))
+            if a == 0 or not ctx.quick():  # model evaluation of Phi: first algorithm only in the quick tier (cost)
+                _, MS = arrays(sub)
+                exprs.append(merge_expr(MS, sub["refs"]))
+                meta.append(("e2e-phi", tag, np.asarray(r.Phi)))
+
+    # ------------------------------------------------------------------------------------------------ merge_results, real SSI runs
+    def do_ssi(case):
+        ctx.count(case, nontrivial=True)
+        try:
+            fn, Phi, per, setups = run_ssi(case)
+        except Exception as e:  # the identification stage (not part of C02) failed: the hypothesis cannot be set up
+            ctx.not_judged += 1
+            ctx.hist("ssi_hypothesis", "identification raised " + type(e).__name__)
+            return
+        try:
+            r = merge_ssi(case, setups)
+        except Exception as e:
+            ctx.fail("oracle", "MultiSetup_PoSER.merge_results() raises %s after SSI runs on noise-free records of one global system" % type(e).__name__,
+                     case, key="C02:merge_results:ssi-raises")
+            return
+        sel = case["sel"]
+        G = Phi[:, sel]
+        # hypothesis check: every setup's identified shape is a real multiple of the global shape on its sensors
+        ok, c0 = True, None
+        for i, (s, (f_i, x_i, P_i)) in enumerate(zip(case["sensors"], per)):
+            if P_i.shape != (len(s), len(sel)) or not np.all(np.isfinite(P_i)):
+                ok = False
+                break
+            c = np.real(np.sum(G[s, :] * P_i, axis=0) / np.sum(G[s, :] ** 2, axis=0))
+            if not close(P_i, G[s, :] * c[None, :], tol=1e-7) or not close(f_i, fn[sel], tol=1e-7):
+                ok = False
+            if i == 0:
+                c0 = c
+        if not ok:
+            ctx.not_judged += 1  # identification itself is not exact here: the property's hypothesis is not met
+            ctx.hist("ssi_hypothesis", "not met")
+            return
+        ctx.hist("ssi_hypothesis", "met")
+        order = expected_order(case["sensors"], case["refs"])
+        if np.asarray(r.Phi).shape != (len(order), len(sel)) or not close(r.Phi, G[order, :] * c0[None, :], tol=1e-6):
+            ctx.fail("oracle", "merge_results().Phi from SSI runs on noise-free records of one system at different amplitudes is not the global "
+                     "shape in the first setup's scale", case, key="C02:merge_results:ssi-Phi")
+        for what, idx, mean_got, disp_got in (("Fn", 0, r.Fn, r.Fn_cov), ("Xi", 1, r.Xi, r.Xi_cov)):
+            rows = [p[idx] for p in per]
+            mean_want, disp_want = pop_stats(rows)
+            if not close(mean_got, mean_want):
+                ctx.fail("oracle", "merge_results().%s (SSI runs) is not the arithmetic mean over the setups" % what, case, key="C02:merge_results:%s" % what)
+            if not close(disp_got, disp_want, floor=0.0):
+                ctx.fail("oracle", "merge_results().%s_cov (SSI runs) is not the population standard deviation over the setups divided by the mean" % what,
+                         case, key="C02:merge_results:%s_cov" % what)
+            exprs.append(stats_expr(rows))
+            meta.append(("stats", dict(case, what=what), (np.asarray(mean_got, float), np.asarray(disp_got, float))))
+        ssi_model[0] += 1
+        if ssi_model[0] <= ctx.n(2, 12):  # 53-bit mantissas make big rationals: the model is evaluated on the first few only
+            exprs.append(merge_expr([p[2] for p in per], case["refs"]))
+            meta.append(("e2e-phi", case, np.asarray(r.Phi)))
+
+    def dispatch(c):
+        c = {k: v for k, v in c.items() if k not in ("corpus", "comment", "got", "want", "alg_index", "what")}
+        kind = c.get("kind")
+        if kind == "merge":
+            do_merge(c)
+        elif kind == "flatten":
+            do_flatten(c)
+        elif kind == "e2e":
+            c.pop("alg", None)
+            do_e2e(c)
+        elif kind == "ssi":
+            do_ssi(c)
+        else:
+            ctx.note("case of unknown kind %r skipped" % kind)
+            return False
+        return True
+
+    def evaluate():
+        res = ctx.coq_eval(HEADER, exprs, shard=ctx.n(40, 120))
+        for (kind, case, got), s in zip(meta, res):
+            if kind in ("merge", "e2e-phi"):
+                where = "gen.merge_mode_shapes" if kind == "merge" else "merge_results()[name].Phi"
+                if not s.startswith("ok:"):
+                    ctx.fail("correspondence", "model merge_mode_shapes returns %s where %s returns a table" % (s, where), case,
+                             key="C02:%s:corr-error" % kind)
+                    continue
+                M = parse_cmat(s[3:])
+                if M.shape != got.shape or not close(got, M):
+                    ctx.fail("correspondence", "%s differs from model merge_mode_shapes" % where, case, key="C02:%s:corr" % kind)
+            elif kind == "malformed":
+                if (s.startswith("ok:")) != (got == "no exception"):
+                    ctx.note("mode-count mismatch: implementation %s, model %s (error kinds are not constrained by the property)" % (got, s[:12]))
+            elif kind == "flatten":
+                if s.split(",") != got:
+                    ctx.fail("correspondence", "gen.flatten_sns_names differs from model flatten_multi", dict(case, model=s), key="C02:flatten_sns_names:corr")
+            elif kind == "flatten-noref":
+                if s != got:
+                    ctx.note("flatten_sns_names without ref_ind: implementation %s, model %s (not constrained by the property)" % (got, s))
+            elif kind == "stats":
+                mean_m, c2_m = parse_stats(s)
+                mean_got, disp_got = got
+                if not close(mean_got, mean_m):
+                    ctx.fail("correspondence", "merge_results %s differs from model mean" % case["what"], case, key="C02:merge_results:corr-mean")
+                if not close(disp_got ** 2, c2_m, floor=0.0, tol=1e-8) and not close(disp_got, np.sqrt(c2_m), floor=0.0):
+                    ctx.fail("correspondence", "merge_results %s_cov^2 differs from model cov2 (population variance / mean^2)" % case["what"], case,
+                             key="C02:merge_results:corr-cov")
+
+    # ------------------------------------------------------------------------------------------------ replay of one stored case
+    if ctx.replay:
+        c = json.load(open(ctx.replay))
+        dispatch(c.get("case", c))
+        evaluate()
+        return
+
+    # ------------------------------------------------------------------------------------------------ corpus first
     corpus = load_corpus()
     for c in corpus:
         ctx.hist("stream", "corpus")
-        if c.get("kind") == "merge":
-            do_merge({k: v for k, v in c.items() if k not in ("corpus", "comment")})
+        dispatch(c)
     if not any(c.get("kind") == "merge" for c in corpus):
         ctx.fail("correspondence", "corpus/C02 holds no merge case (the failing input of the repaired MSF-direction defect must be run first)",
                  key="C02:corpus:missing")
@@ -382,8 +698,7 @@ def run(ctx):
     for nref, pos0, pos1 in [(1, [0], [2]), (1, [2], [0]), (2, [0, 1], [1, 0]), (2, [2, 0], [1, 3]), (3, [0, 1, 2], [4, 2, 0]),
                              (3, [3, 1, 0], [0, 1, 2]), (4, [0, 1, 2, 3], [5, 3, 1, 0]), (2, [1, 0], [0, 2])]:
         n0, n1 = max(pos0) + 2, max(pos1) + 2
-        ids = list(range(100))
-        ref_ids = ids[:nref]
+        ref_ids = list(range(nref))
         s0, s1 = [None] * n0, [None] * n1
         for j in range(nref):
             s0[pos0[j]] = ref_ids[j]
@@ -407,6 +722,29 @@ def run(ctx):
     for _ in range(ctx.n(150, 1500)):
         ctx.hist("stream", "random")
         do_merge(gen_merge_case(rng))
+
+    # special global shapes inside the hypothesis: purely imaginary, real part (or imaginary part) zero on the references only,
+    # a zero entry at the first / at all but one reference sensor
+    for fam in ("imag", "ref-imag", "ref-real", "first-ref-zero", "one-ref-nonzero"):
+        for _ in range(ctx.n(4, 30)):
+            c = gen_merge_case(rng, cplx=True, nm=rng.randint(1, 4), nref=rng.randint(2, 4) if fam == "one-ref-nonzero" else None)
+            ref_ids = [c["sensors"][0][p] for p in c["refs"][0]]
+            for s_, row in enumerate(c["G"]):
+                for z in row:
+                    if fam == "imag" or (fam == "ref-imag" and s_ in ref_ids):
+                        z[0] = 0.0
+                        z[1] = z[1] or 0.5
+                    elif fam == "ref-real" and s_ in ref_ids:
+                        z[1] = 0.0
+                        z[0] = z[0] or -0.75
+                    elif fam == "first-ref-zero" and s_ == ref_ids[0] and len(ref_ids) > 1:
+                        z[0] = z[1] = 0.0
+                    elif fam == "one-ref-nonzero" and s_ in ref_ids[:-1]:
+                        z[0] = z[1] = 0.0
+            if any(isotropic(c["G"], ref_ids, k) for k in range(len(c["G"][0]))):
+                continue
+            ctx.hist("stream", "special-" + fam)
+            do_merge(c)
 
     # outside the hypothesis (observations, never judged against the theorem): g^T g = 0 on the reference part
     for cplx_ref in ([[1.0, 0.0], [0.0, 1.0]], [[3.0, 0.0], [4.0, 0.0], [0.0, 5.0]], [[0.0, 0.0], [0.0, 0.0]]):
@@ -436,44 +774,14 @@ def run(ctx):
         exprs.append(merge_expr(MS, c["refs"]))
         meta.append(("malformed", c, kind))
 
-    # ------------------------------------------------------------------------------------------------ flatten_sns_names
-    import pandas as pd
-
-    def do_flatten(sensors, refs, tag):
-        names = [["%s%d" % (tag, sid) for sid in s] for s in sensors]
-        case = dict(kind="flatten", names=names, refs=refs, sensors=sensors)
-        ctx.count(case, nontrivial=sum(len(s) for s in sensors) > len(sensors) * len(refs[0]))
-        order = expected_order(sensors, refs)
-        want = ["REF%d" % (j + 1) for j in range(len(refs[0]))] + ["%s%d" % (tag, sid) for sid in order[len(refs[0]):]]
-        try:
-            got = gen.flatten_sns_names([list(r) for r in names], ref_ind=[list(r) for r in refs])
-        except Exception as e:
-            ctx.fail("oracle", "gen.flatten_sns_names raises %s on a list of lists of names with ref_ind" % type(e).__name__, case,
-                     key="C02:flatten_sns_names:raises")
-            return
-        if list(got) != want:
-            ctx.fail("oracle", "gen.flatten_sns_names: names are not in the order of the merged rows (REF1..REFk, then each setup's roving "
-                     "sensors in setup order)", dict(case, got=list(got), want=want), key="C02:flatten_sns_names:order")
-        # the table form of the same input (rows padded with NaN)
-        width = max(len(r) for r in names)
-        df = pd.DataFrame([r + [np.nan] * (width - len(r)) for r in names])
-        if len(names) > 1:
-            try:
-                got_df = gen.flatten_sns_names(df, ref_ind=[list(r) for r in refs])
-                if list(got_df) != want:
-                    ctx.fail("oracle", "gen.flatten_sns_names (table form): names are not in the order of the merged rows",
-                             dict(case, got=list(got_df), want=want), key="C02:flatten_sns_names:order-table")
-            except Exception as e:
-                ctx.fail("oracle", "gen.flatten_sns_names raises %s on a table of names with ref_ind" % type(e).__name__, case,
-                         key="C02:flatten_sns_names:raises-table")
-        exprs.append(flatten_expr(names, refs))
-        meta.append(("flatten", case, list(got)))
-
+    # names: the flattened order is the order of the merged rows
     for c in fixed[::2]:
-        do_flatten(c["sensors"], c["refs"], "ch")
+        ctx.hist("stream", "flatten")
+        do_flatten(flatten_case(c["sensors"], c["refs"], "ch"))
     for _ in range(ctx.n(60, 600)):
         sensors, refs, _ = gen_layout(rng)
-        do_flatten(sensors, refs, rng.choice(["ch", "A_", "n"]))
+        ctx.hist("stream", "flatten")
+        do_flatten(flatten_case(sensors, refs, rng.choice(["ch", "A_", "n"])))
     # missing ref_ind for the multi-setup form (docstring: AttributeError) - recorded only
     sensors, refs, _ = gen_layout(rng)
     names = [["ch%d" % sid for sid in s] for s in sensors]
@@ -486,70 +794,13 @@ def run(ctx):
     exprs.append(flatten_expr(names, None))
     meta.append(("flatten-noref", dict(kind="flatten-noref", names=names), kind))
 
-    # ------------------------------------------------------------------------------------------------ merge_results (end to end)
-    classes = stub_classes()
+    # end to end: stub algorithms, then real SSI runs
     for _ in range(ctx.n(40, 300)):
-        case = gen_e2e_case(rng)
         ctx.hist("stream", "e2e")
-        ctx.hist("e2e_algs", len(case["algs"]))
-        ctx.count(case, nontrivial=True)
-        try:
-            res = run_e2e(case, classes)
-        except Exception as e:
-            ctx.fail("oracle", "MultiSetup_PoSER(...).merge_results() raises %s on setups that are re-scaled restrictions of one global shape"
-                     % type(e).__name__, case, key="C02:merge_results:raises")
-            continue
-        if sorted(res.keys()) != sorted(case["names"]):
-            ctx.fail("oracle", "merge_results: result keys %s are not the given names %s" % (sorted(res.keys()), case["names"]), case,
-                     key="C02:merge_results:names")
-            continue
-        for a, sub in enumerate(case["algs"]):
-            r = res[case["names"][a]]
-            tag = dict(case, alg=a)
-            want_phi, _ = expected_merged(sub)
-            if np.asarray(r.Phi).shape != want_phi.shape or not close(r.Phi, want_phi):
-                ctx.fail("oracle", "merge_results()[name].Phi is not the global shape of that algorithm in the first setup's scale", tag,
-                         key="C02:merge_results:Phi")
-            for what, rows, mean_got, disp_got in (("Fn", sub["Fn"], r.Fn, r.Fn_cov), ("Xi", sub["Xi"], r.Xi, r.Xi_cov)):
-                mean_want, disp_want = pop_stats(rows)
-                if not close(mean_got, mean_want):
-                    ctx.fail("oracle", "merge_results()[name].%s is not the arithmetic mean over the setups" % what, tag,
-                             key="C02:merge_results:%s" % what)
-                if not close(disp_got, disp_want, floor=0.0):
-                    ctx.fail("oracle", "merge_results()[name].%s_cov is not the population standard deviation over the setups divided by the mean"
-                             % what, tag, key="C02:merge_results:%s_cov" % what)
-                exprs.append(stats_expr(rows))
-                meta.append(("stats", dict(tag, what=what), (np.asarray(mean_got, float), np.asarray(disp_got, float))))
-            _, MS = arrays(sub)
-            exprs.append(merge_expr(MS, sub["refs"]))
-            meta.append(("e2e-phi", tag, np.asarray(r.Phi)))
+        do_e2e(gen_e2e_case(rng))
+    for j in range(ctx.n(6, 60)):
+        case = gen_ssi_case(rng, "SSIcov" if j % 2 == 0 else "SSIdat")
+        ctx.hist("stream", "ssi-" + case["alg"])
+        do_ssi(case)
 
-    # ------------------------------------------------------------------------------------------------ model evaluation + comparison
-    res = ctx.coq_eval(HEADER, exprs, shard=ctx.n(40, 120))
-    for (kind, case, got), s in zip(meta, res):
-        if kind in ("merge", "e2e-phi"):
-            where = "gen.merge_mode_shapes" if kind == "merge" else "merge_results()[name].Phi"
-            if not s.startswith("ok:"):
-                ctx.fail("correspondence", "model merge_mode_shapes returns %s where %s returns a table" % (s, where), case,
-                         key="C02:%s:corr-error" % kind)
-                continue
-            M = parse_cmat(s[3:])
-            if M.shape != got.shape or not close(got, M):
-                ctx.fail("correspondence", "%s differs from model merge_mode_shapes" % where, case, key="C02:%s:corr" % kind)
-        elif kind == "malformed":
-            if (s.startswith("ok:")) != (got == "no exception"):
-                ctx.note("mode-count mismatch: implementation %s, model %s (error kinds are not constrained by the property)" % (got, s[:12]))
-        elif kind == "flatten":
-            if s.split(",") != got:
-                ctx.fail("correspondence", "gen.flatten_sns_names differs from model flatten_multi", dict(case, model=s), key="C02:flatten_sns_names:corr")
-        elif kind == "flatten-noref":
-            if s != got:
-                ctx.note("flatten_sns_names without ref_ind: implementation %s, model %s (not constrained by the property)" % (got, s))
-        elif kind == "stats":
-            mean_m, c2_m = parse_stats(s)
-            mean_got, disp_got = got
-            if not close(mean_got, mean_m):
-                ctx.fail("correspondence", "merge_results %s differs from model mean" % case["what"], case, key="C02:merge_results:corr-mean")
-            if not close(disp_got ** 2, c2_m, floor=0.0, tol=1e-8) and not close(disp_got, np.sqrt(c2_m), floor=0.0):
-                ctx.fail("correspondence", "merge_results %s_cov^2 differs from model cov2 (population variance / mean^2)" % case["what"], case,
-                         key="C02:merge_results:corr-cov")
+    evaluate()
